@@ -2,6 +2,15 @@
 """prints the prompt given to a fresh sub-agent asked for a property-breaking change (only the property text + a scratch worktree)"""
 import json, sys
 pid, wt, n = sys.argv[1], sys.argv[2], (sys.argv[3] if len(sys.argv) > 3 else '2')
+start = int(sys.argv[4]) if len(sys.argv) > 4 else 1
+import glob, os, re
+earlier = []
+for d in sorted(glob.glob('/verif/seeded/%s-*' % pid)):
+    try:
+        m = json.load(open(os.path.join(d, 'meta.json')))
+        earlier.append('- ' + re.sub(r'\s+', ' ', (m.get('summary') or m.get('breaks') or ''))[:300])
+    except Exception:
+        pass
 p = [json.loads(l) for l in open('/verif/properties.jsonl') if json.loads(l)['id'] == pid][0]
 print(f"""You are helping test a verification framework by seeding realistic bugs. You work ONLY inside the scratch git worktree {wt} (a checkout of the Rust project aws-cloudformation/cloudformation-guard, "cfn-guard": a policy-as-code DSL with a nom parser and an evaluator checking JSON/YAML documents against rules). Never read or touch /repo or /verif. The sandbox has no network; build with `cargo build --offline -j4 -p cfn-guard --bin cfn-guard` from {wt} (a warm target dir is already there; the binary is {wt}/target/debug/cfn-guard), and run the test suite with `cargo nextest run --workspace --no-fail-fast --offline --test-threads 4` (expect exactly "638 passed" on the clean tree; allow up to ~10 minutes).
 
@@ -14,9 +23,9 @@ CODE ANCHORS: {json.dumps(p.get('anchors', {}).get('mechanism', []))}
 
 Your task: produce {n} DIFFERENT source changes (each independent, each a small patch against the clean worktree) to the Rust code under {wt}/guard/src that each BREAK this property, while the project still compiles and the existing test suite still shows 638 passed (no test may newly fail). The changes should look like plausible mistakes or "refactors" a developer could make, and must need something SPECIFIC to manifest - a particular unusual input, value shape, operator combination, multi-step sequence, ordering of files/rules, a cache populated in a particular order, or two cooperating sites that each look fine alone - NOT something ordinary everyday use (or the README examples) would expose at once. Do not touch tests, do not touch the file guard/src/verif_hooks.rs, and do not add cfg flags. Do not make the change depend on magic strings/identifiers that only your demo uses (no "if key == \\"zzz\\"" backdoors): the wrong behaviour must follow from a genuine logic error.
 
-For each change k = 1..{n} write into /tmp/seeded-out/{pid}-k/ :
+For each change k = {start}..{start + int(n) - 1} write into /tmp/seeded-out/{pid}-k/ :
   - patch.diff : `git diff` of the change against the clean worktree (must apply with `git apply` at the worktree root)
   - demo.sh : a bash script taking the path of the cfn-guard binary as $1; it writes whatever rule/data files it needs into a fresh `mktemp -d` directory, runs the binary, and exits 0 when the behaviour is CORRECT per the property (clean tree) and non-zero when the property is violated (patched tree). It must be deterministic.
   - meta.json : {{"property": "{pid}", "summary": "...what was changed...", "needs": "...what specific input/sequence is needed for it to manifest...", "files": [...], "ran": "...commands you ran and their results (clean demo exit, patched demo exit, test summary line)..."}}
 
-Procedure for each change: edit, build, run demo.sh on the patched binary (must fail), run the full test suite (must still be 638 passed), save `git diff > patch.diff`, then `git checkout -- .` to restore the clean tree, rebuild, run demo.sh on the clean binary (must exit 0). Leave the worktree clean (`git status` shows no changes) when you finish. Report briefly what you made and the confirmations you observed. If a candidate breaks an existing test, discard it and try a subtler one.""")
+{('Changes of this kind were already made by others; yours must be DIFFERENT in mechanism and in the code they touch:' + chr(10) + chr(10).join(earlier) + chr(10) + chr(10)) if (earlier and start > 1) else ''}Procedure for each change: edit, build, run demo.sh on the patched binary (must fail), run the full test suite (must still be 638 passed), save `git diff > patch.diff`, then `git checkout -- .` to restore the clean tree, rebuild, run demo.sh on the clean binary (must exit 0). Leave the worktree clean (`git status` shows no changes) when you finish. Report briefly what you made and the confirmations you observed. If a candidate breaks an existing test, discard it and try a subtler one.""")
